@@ -70,6 +70,8 @@ def gen_roundtrip(rng):
         np2 = [1]
     writes = []
     times = rng.sample(TIMES, rng.randint(1, 4))
+    if rng.random() < 0.2:
+        times.append(times[0])        # the same checkpoint written again: the later content must be the one on disk
     for t in times:
         writes.append(dict(layout=rng.choice(names), t=t, name=rng.choice(['grid', 'grid', 'phi'])))
     c.update(kind='roundtrip', ops=[], nprocs2=np2, P2=int(np.prod(np2)), writes=writes)
